@@ -44,8 +44,10 @@ Definition put_win (r : rstate) (e : pentry) : rstate :=
     mkRS (r_win r ++ [e]) (r_prob r) (r_prot r) (map_put (r_map r) e) (r_wcap r) (r_pcap r) (r_mainmax r) (r_cap r)
          (r_start r) (r_wall r) (r_meta r) (r_wsz r + pe_pw e)
   else r.
+(* probation is loaded last and takes whatever room is left in the cache (policy total + weight <= capacity): its size is
+   not fixed - the adaptive window may have shrunk in its favour (defect F13c: the fixed main size of a fresh cache was used) *)
 Definition put_prob (r : rstate) (e : pentry) : rstate :=
-  if live r e && (sumw (r_prot r) + sumw (r_prob r) + pe_pw e <=? r_mainmax r) then
+  if live r e && (r_wsz r + pe_pw e <=? r_cap r) then
     mkRS (r_win r) (r_prob r ++ [e]) (r_prot r) (map_put (r_map r) e) (r_wcap r) (r_pcap r) (r_mainmax r) (r_cap r)
          (r_start r) (r_wall r) (r_meta r) (r_wsz r + pe_pw e)
   else r.
